@@ -138,8 +138,8 @@ PROPS = {
     "C13": {"streams": s_C13, "monitors": ["C13", "C01", "C02", "C07", "C08", "C10"]},
     "C14": {"streams": s_C14, "monitors": ["C14", "C01", "C02", "C10", "EXP"]},
     "C15": {"streams": s_C15, "monitors": ALLMON},
-    "C16": {"streams": s_C16, "monitors": ["C16"], "conc_monitors": ["C16"], "forwarding": True, "facts": True, "props_extra": ["C16F"]},
-    "C17": {"streams": s_C17, "monitors": ["C17"], "forwarding": True, "facts": True, "props_extra": ["C17F"]},
+    "C16": {"streams": s_C16, "monitors": ["C16"], "conc_monitors": ["C16"], "forwarding": True, "facts": "forwarding", "props_extra": ["C16F"]},
+    "C17": {"streams": s_C17, "monitors": ["C17"], "forwarding": True, "facts": "forwarding", "props_extra": ["C17F"]},
     "C18": {"streams": s_C18, "monitors": ["C18"]},
 }
 
